@@ -25,6 +25,7 @@ import (
 const (
 	c10Enum   = iota // one legal history H; every position x every fault class; Reset at later positions + legal tail
 	c10Random        // seeded history over the whole alphabet, legality not respected
+	c10Long          // long legal histories (runs of hundreds of identical drawing calls), decode oracle only
 )
 
 func classOf(o *world.Op) (model.Class, uint8, bool) {
@@ -298,7 +299,7 @@ func probeOp(t *tape.Tape) world.Op {
 }
 
 func c10Run(ctx *Ctx, t *tape.Tape) *report.Violation {
-	mode := t.Intn(2)
+	mode := t.Intn(3)
 	st := ctx.Stats
 	trace := func(v *report.Violation, hist []world.Op, notes ...string) *report.Violation {
 		v.Trace = append(append([]string{}, notes...), world.FormatOps(hist, 60)...)
@@ -306,6 +307,17 @@ func c10Run(ctx *Ctx, t *tape.Tape) *report.Violation {
 		return v
 	}
 	switch mode {
+	case c10Long:
+		h := world.GenProgram(t, world.GenCfg{MaxItems: 8, EncOnly: true, Observers: true, NoReset: t.Chance(1, 3), LongRuns: 20})
+		if v := checkHistory(ctx, h, false); v != nil {
+			return trace(v, h, "long legal history, no fault injected")
+		}
+		if st != nil {
+			st.Add("evaluations", 1)
+			st.Add("long_legal_histories", 1)
+			st.Max("max_history_length", int64(len(h)))
+		}
+		return nil
 	case c10Enum:
 		cfg := world.GenCfg{MaxItems: 5, EncOnly: true, Observers: true, NoReset: t.Chance(1, 3)}
 		h := world.GenProgram(t, cfg)
@@ -496,19 +508,26 @@ func init() {
 		Level: "fault_enumeration",
 		Cases: func(ctx *Ctx) int {
 			if ctx.Tier == "thorough" {
-				return 120000 + 4000000
+				return 120000 + 4000000 + 400000
 			}
-			return 4000 + 150000
+			return 4000 + 150000 + 20000
 		},
 		Prefix: func(ctx *Ctx, i int) []uint64 {
 			nEnum := 4000
 			if ctx.Tier == "thorough" {
 				nEnum = 120000
 			}
+			nRandom := 150000
+			if ctx.Tier == "thorough" {
+				nRandom = 4000000
+			}
 			if i < nEnum {
 				return []uint64{c10Enum}
 			}
-			return []uint64{c10Random}
+			if i < nEnum+nRandom {
+				return []uint64{c10Random}
+			}
+			return []uint64{c10Long}
 		},
 		Run: c10Run,
 		Describe: func(tier string, s *report.Stats, cases int) Evidence {
@@ -524,6 +543,8 @@ func init() {
 					"restarts_after_a_fault":               s.Counters["restart_after_fault"],
 					"legal_histories_enumerated_over":      s.Counters["legal_histories"],
 					"seeded_histories":                     s.Counters["random_histories"],
+					"long_legal_histories":                 s.Counters["long_legal_histories"],
+					"longest_history":                      s.Counters["max_history_length"],
 					"reach_probes": map[string]int64{
 						"fault injected strictly inside a history":           s.Counters["probe_fault_mid_history"],
 						"seeded history with both a fault and a later Reset": s.Counters["probe_fault_and_reset_in_one_history"],
